@@ -69,7 +69,40 @@ class C10(PipelineProp):
             "non-trivial = distinct completed case with at least two rank-1 scaffolds or a haplotig/unloc"
         )
 
+    def gen_sliver(self, rng):
+        """a Haplotig / Unloc piece that comes out empty (its only contig, 1.5 texels long, is shared with the
+        neighbouring piece, which overlaps it more) while a later haplotig / unloc exists: the number the empty
+        one consumed must not leave a hole"""
+        t = rng.choice([50, 100, 137, 1000])
+        s1, s2 = rng.choice([1, -1]), rng.choice([1, -1])
+        b = int(1.5 * t)
+        rows = [["F", "cA", 1, 10 * t, s1, []], ["G", 2 * t, "scaffold"], ["F", "cB", 1, b, s2, []],
+                ["G", 3 * t, "scaffold"], ["F", "cC", 1, 10 * t, 1, []]]
+        L1 = 10 * t + 2 * t + b + 3 * t + 10 * t
+        inp = {"scaffolds": [{"name": "scaffold_1", "rows": rows},
+                             {"name": "scaffold_2", "rows": [["F", "cD", 1, 8 * t, 1, []]]},
+                             {"name": "scaffold_3", "rows": [["F", "cE", 1, 6 * t, -1, []]]}]}
+        k1, k2 = 13 * t, 16 * t
+        if rng.random() < 0.5:
+            ptx = [{"name": "Scaffold_1", "rows": [["F", "scaffold_1", 1, k1, 1, ["Painted"]]]},
+                   {"name": "Scaffold_2", "rows": [["F", "scaffold_1", k1 + 1, k2, rng.choice([1, -1]), ["Haplotig"]]]},
+                   {"name": "Scaffold_3", "rows": [["F", "scaffold_1", k2 + 1, L1, 1, ["Painted"]]]},
+                   {"name": "Scaffold_4", "rows": [["F", "scaffold_2", 1, 8 * t, 1, ["Haplotig"]]]},
+                   {"name": "Scaffold_5", "rows": [["F", "scaffold_3", 1, 6 * t, 1, ["Haplotig"]]]}]
+            kind = "haplotig"
+        else:
+            ptx = [{"name": "Scaffold_1", "rows": [["F", "scaffold_1", 1, k1, 1, ["Painted"]], list(P.PGAP),
+                                                   ["F", "scaffold_1", k1 + 1, k2, rng.choice([1, -1]), ["Painted", "Unloc"]], list(P.PGAP),
+                                                   ["F", "scaffold_1", k2 + 1, L1, 1, ["Painted", "Unloc"]], list(P.PGAP),
+                                                   ["F", "scaffold_2", 1, 8 * t, 1, ["Painted", "Unloc"]]]},
+                   {"name": "Scaffold_2", "rows": [["F", "scaffold_3", 1, 6 * t, 1, ["Painted"]]]}]
+            kind = "unloc"
+        return {"gen": "sliver/" + kind, "input": inp, "pretext": {"bpt": f"{t}.000000", "scaffolds": ptx},
+                "prefix": rng.choice(PREFIXES), "want_csv": True, "two": False}
+
     def gen_case(self, rng):
+        if rng.random() < 0.06:
+            return self.gen_sliver(rng)
         two = rng.random() < 0.3
         inp = P.gen_input(rng, style=rng.choice(["tpf", "fasta"]), hap_names=two, nscaf=rng.randint(2, 7))
         if rng.random() < 0.3:
